@@ -155,8 +155,8 @@ PROPS["C06"] = {
     "gens": ["lexer"],
     "streams": [{"name": "lex", "quick": 4000, "thorough": 400000}, {"name": "idem", "quick": 6000, "thorough": 600000}],
     "shrink": False,
-    "claim": "Lean theorem no_verdict_dropped (for every token stream: verdict idempotent => no function term the classifier parsed, at any nesting depth and in every clause and batch child, was a call of now()/uuid(); ghost flag + preservation lemmas through all 30 parser functions); Lean theorems over the regenerated scanner tables + hand-written classifier model, for every token stream and every fuel: unparseable_false (error => not idempotent, by induction through all 25 parser functions), total, select_idempotent, ddl_use_not_idempotent, counter_batch_not_idempotent, if_clause_not_idempotent; soundness w.r.t. the documented rule, plain-mutation completeness and case/whitespace/terminator invariance are decided by the idem stream's ground-truth oracle (statements generated from a CQL grammar with truth attached by construction) - they are not yet theorems (classify_sound is work in progress, see DESIGN.md)",
-    "note": "partial: the AST-level soundness theorem is not proved yet; what is proved holds for arbitrary bytes. Trusted: Lean kernel, the goto-program translator + scanner interpreter (validated against the real lexer.next() on every run), hand-written parser model (validated against parser.IsQueryIdempotent on every run), the generator's ground truth",
+    "claim": "Lean theorem no_verdict_dropped (for every token stream: verdict idempotent => no function term the classifier parsed, at any nesting depth and in every clause and batch child, was a call of now()/uuid(); ghost flag + preservation lemmas through all 30 parser functions); Lean theorems over the regenerated scanner tables + hand-written classifier model, for every token stream and every fuel: unparseable_false (error => not idempotent, by induction through all 25 parser functions), total, select_idempotent, ddl_use_not_idempotent, counter_batch_not_idempotent, if_clause_not_idempotent; soundness w.r.t. the documented rule, plain-mutation completeness and case/whitespace/terminator invariance are decided by the idem stream's ground-truth oracle (statements generated from a CQL grammar with truth attached by construction) - they are not theorems (a grammar-level classify_sound over ASTs was not attempted; no_verdict_dropped is the half of it that concerns the classifier's own traversal)",
+    "note": "partial: that every term of the CQL grammar is recognised as a term (grammar-level soundness over ASTs) is checked by the ground-truth stream, not proved; what is proved holds for arbitrary bytes. Trusted: Lean kernel, the goto-program translator + scanner interpreter (validated against the real lexer.next() on every run), hand-written parser model (validated against parser.IsQueryIdempotent on every run), the generator's ground truth",
     "rule": "lex: the repo's own test strings, keyword case variants, truncations / single-byte mutations / random strings over a token-heavy alphabet incl. NUL, 0xFF and UTF-8, generated statements in random case/whitespace variants; compared: token kinds, end positions, identifier text. idem: statements from a type-directed CQL generator (INSERT incl. JSON, UPDATE, DELETE, BATCH logged/unlogged/counter, USING, WHERE relations of every shape, IF, nested list/set/map/UDT/tuple/cast/function terms to depth 4, system and user now()/uuid()), each with 3 meaning-preserving variants, plus truncated/mutated statements; oracles: unsound / plain-rejected / variant-changes-verdict / error-but-idempotent / panic; distinct = distinct texts",
     "trusted_base": [KERNEL, DRIVER, HARNESS, "Gen/LexTables.lean regenerated from parser/lexer.go by partial evaluation of the ragel goto program", "Model/Lexer.lean (60-line interpreter), Model/Parser.lean hand-written"],
     "assumptions": ["identifiers are compared ASCII-case-insensitively (strings.EqualFold's Unicode folding of non-ASCII identifiers is compared in the tie, not modelled)"],
